@@ -154,7 +154,7 @@ class Ncp:
         self.config_writes = []  # (configId, value, status name)
         self.value_writes = []
         self.write_log = []  # ("config"|"value", id, value, status name) in arrival order
-        self.counters = [0] * 41
+        self.counters = list(self.counters_boot) if getattr(self, 'counters_boot', None) else [0] * 41  # (counters_boot: traffic counted since boot, set by a check)
         self.ext_timeout = {}
         self.source_routes = []
         self.scan = None
